@@ -27,12 +27,13 @@ def write_package(root: typing.Union[str, pathlib.Path], name: str, version: str
     return path
 
 
-def directory(root: typing.Union[str, pathlib.Path]):
-    """Fresh asset.Directory over a posix registry rooted at the given path."""
+def directory(root: typing.Union[str, pathlib.Path], staging: typing.Optional[str] = None):
+    """Fresh asset.Directory over a posix registry rooted at the given path (``staging``: the registry's documented option
+    naming another location - possibly on another file system - for package staging)."""
     from forml.io import asset
     from forml.provider.registry.filesystem import posix
 
-    return asset.Directory(posix.Registry(str(root)))
+    return asset.Directory(posix.Registry(str(root), staging=staging) if staging else posix.Registry(str(root)))
 
 
 def publish(adir, package_path):
